@@ -207,6 +207,12 @@ structure Bindings where
 
 def selectorIntX (v : Val) : M (Option Int) := selectorInt v
 
+/-- A missing `BY` clause is lowered to `Literal(Value::Int(1))`. -/
+def stepXExpr (step : Option XExpr) : XExpr :=
+  match step with
+  | some st => st
+  | none => .lit (some .int) 1
+
 def findXBranch (n : Int) : XBranches → Option XBlock
   | .nil => none
   | .cons ls b rest => if ls.any (Label.matches n) then some b else findXBranch n rest
@@ -249,18 +255,18 @@ def bindParams (fs : List FuncDef) : Nat → Ctl → XStore → List Param → X
     let arg : Option XExpr := if positional then args.nth idx else args.find p.name
     match p.dir with
     | .inp =>
-      let ev : XRes Val :=
-        match arg with
-        | some a => evalX fs fuel ctl σ a              -- read_arg_value (Target = same value)
-        | none =>
-          match p.default with
-          | some d => evalX fs fuel ctl σ d
-          | none => (σ, pure p.ty.default)
-      match ev with
-      | (σ1, .error s) => (σ1, .error s)
-      | (σ1, .ok v) =>
-        bindParams fs fuel ctl σ1 rest args positional (idx + 1)
-          { acc with paramValues := acc.paramValues ++ [(p.name, v)] }
+      -- the argument (read_arg_value; a Target reads the same value), else the declared default
+      let src : Option XExpr := match arg with | some a => some a | none => p.default
+      match src with
+      | none =>
+        bindParams fs fuel ctl σ rest args positional (idx + 1)
+          { acc with paramValues := acc.paramValues ++ [(p.name, p.ty.default)] }
+      | some a =>
+        match evalX fs fuel ctl σ a with
+        | (σ1, .error s) => (σ1, .error s)
+        | (σ1, .ok v) =>
+          bindParams fs fuel ctl σ1 rest args positional (idx + 1)
+            { acc with paramValues := acc.paramValues ++ [(p.name, v)] }
     | .out =>
       let acc1 := { acc with paramValues := acc.paramValues ++ [(p.name, p.ty.default)] }
       match arg with
@@ -378,8 +384,7 @@ def execXStmt (fs : List FuncDef) : Nat → Ctl → XStore → XStmt → XRes XF
         match evalX fs fuel ctl σ1 e with
         | (σ2, .error st) => (σ2, .error st)
         | (σ2, .ok ev) =>
-          let stepE : XExpr := match step with | some st => st | none => .lit (some .int) 1
-          match evalX fs fuel ctl σ2 stepE with
+          match evalX fs fuel ctl σ2 (stepXExpr step) with
           | (σ3, .error st) => (σ3, .error st)
           | (σ3, .ok tv) =>
             let pre : M (Int × Int × Int × Val) := do
